@@ -2,6 +2,11 @@ NOTES = ("All checks: ./check <ID> --tier quick|thorough, VERIF_SEED respected, 
          "fix: commits in /repo are listed in known_findings.json as fixed entries.")
 NOT_APPLICABLE = {}
 CHECKS = {
+ "C03": {
+  "technique": "Hypothesis property-based testing with a masked byte-equality / masked syntax-tree oracle over generated adversarial layouts",
+  "text": "Generated programs are decorated outside the arguments (non-ASCII text left of the call, `;`-joined sites, nested calls, decorators, `snapshot(` inside strings and comments, tabs, CRLF, clean/unclean, black / no black / format-command) and run with any of the 16 approved sets; everything outside the argument spans of the sites that the category model allows to change must be byte-identical (or tree-identical when whole-file formatting applies), up to the documented import lines. Exploration.",
+  "note": "python's ast is trusted to locate call parentheses; which sites may change comes from the independent category model (all sites when update is approved)",
+ },
  "C16": {
   "technique": "generated-input differential testing across separate interpreter processes (PYTHONHASHSEED x formatter configuration x set construction history); batch generated with Hypothesis",
   "text": "A Hypothesis-generated batch of set/frozenset/dict-rich values is created by one interpreter process per (hash seed, formatter) cell, each value in three construction histories; texts must be byte-identical across seeds and histories and have the same syntax tree and value across black / no black / format-command. Exploration.",
